@@ -199,6 +199,24 @@ type Embedded2 struct {
 	Z float64 `parquet:"z,optional"`
 }
 
+// two levels of embedding, none of the embedded structs at offset 0
+type EmbLeaf struct {
+	V int32
+	W string `parquet:"w,optional"`
+}
+
+type EmbMid struct {
+	Pad int64
+	EmbLeaf
+	Q *int32
+}
+
+type Embedded3 struct {
+	First int64
+	EmbMid
+	Last float64 `parquet:"last,optional"`
+}
+
 // maps (one entry per map unless the type is flagged multimap)
 type MapSI struct {
 	M map[string]int64
@@ -385,6 +403,7 @@ func catalogue() []*cat {
 		mk[NestedStructs]("NestedStructs"),
 		mk[Embedded]("Embedded"),
 		mk[Embedded2]("Embedded2"),
+		mk[Embedded3]("Embedded3"),
 		mk[MapSI]("MapSI"),
 		mk[MapIS]("MapIS"),
 		mk[MapOptVal]("MapOptVal"),
